@@ -111,14 +111,16 @@ static bool g_force_large = false;     // amplified graphs: always the Horton re
 // path that is too heavy for ONE non-spanner edge breaks the (2k-1) bound only if several such cycles share a heavy edge that
 // the optimum uses once - amplification turns every per-edge slip of the base graph into that situation, systematically,
 // instead of waiting for a hand-made adversarial instance.
+static int g_amp_shared = 2;      // --amp-shared t: the first t vertices are shared by all copies (t = 3: the copies also share a path 0-2-1)
 static void amplify(const vg::EdgeList &el, const std::vector<double> &w, int r, vg::EdgeList &out, std::vector<double> &wout) {
     out = vg::EdgeList(); wout.clear();
-    int inner = std::max(0, el.n - 2);
-    out.n = std::min(el.n, 2) + inner * r;
-    auto map = [&](int v, int j) { return v < 2 ? v : 2 + j * inner + (v - 2); };
+    const int t = g_amp_shared;
+    int inner = std::max(0, el.n - t);
+    out.n = std::min(el.n, t) + inner * r;
+    auto map = [&](int v, int j) { return v < t ? v : t + j * inner + (v - t); };
     for (int i = 0; i < el.m(); ++i) {
         int a = el.e[i].first, b = el.e[i].second;
-        int copies = (a < 2 && b < 2) ? 1 : r;
+        int copies = (a < t && b < t) ? 1 : r;
         for (int j = 0; j < copies; ++j) { out.e.push_back({map(a, j), map(b, j)}); wout.push_back(w[i]); }
     }
 }
@@ -273,10 +275,18 @@ int main(int argc, char **argv) {
         return std::make_pair(std::string(vv::approx_name((int) (var % 10))), cs_of(el, w, (int) (var % 10), k));
     };
     const int amp = (int) A.geti("amp", 1); g_force_large = amp > 1;
+    g_amp_shared = (int) A.geti("amp-shared", 2);
+    const bool detour_only = A.has("detour-012");     // keep only base graphs in which vertex 2 is joined to exactly 0 and 1 and the edge 0-1 is absent (a two-edge detour shared by the copies)
     const int max_m = (int) A.geti("max-m", 1 << 30), min_m = (int) A.geti("min-m", 0);      // restrict a universe to its sparse / dense part (stated in the bound)
     auto work = [&](uint64_t u, uint64_t start_sub) {
         vg::EdgeList el = unit_graph(u);
         if (el.m() > max_m || el.m() < min_m) return;
+        if (detour_only) {
+            if (el.n < 3) return;
+            int deg2 = 0; bool n0 = false, n1 = false, e01 = false;
+            for (auto &e : el.e) { int a = std::min(e.first, e.second), b = std::max(e.first, e.second); if (a == 2 || b == 2) { ++deg2; int o = a == 2 ? b : a; n0 |= o == 0; n1 |= o == 1; } if (a == 0 && b == 1) e01 = true; }
+            if (!(deg2 == 2 && n0 && n1 && !e01)) return;
+        }
         uint64_t nw = vg::num_weightings(alpha, el.m());
         std::vector<double> w; vg::weighting(alpha, el.m(), 0, w);
         if (amp > 1) {
